@@ -25,6 +25,11 @@ pub async fn run<F>(
 where
     F: Future<Output = Result<BuildTerminationReport>>,
 {
+    #[cfg(zinoma_verif)]
+    if crate::verif::hooks::sim_active() {
+        return crate::verif::hooks::virtual_incremental(target, future).await;
+    }
+
     if env_state_has_not_changed_since_last_successful_execution(
         target,
         target_input,
@@ -35,15 +40,26 @@ where
         return Ok(IncrementalRunResult::Skipped);
     }
 
+    #[cfg(zinoma_verif)]
+    crate::verif::hooks::crash_point("decided", target);
+
     storage::delete_saved_env_state(target).await?;
 
+    #[cfg(zinoma_verif)]
+    crate::verif::hooks::crash_point("deleted", target);
+
     let build_report = future.await?;
+
+    #[cfg(zinoma_verif)]
+    crate::verif::hooks::crash_point("script_done", target);
 
     match build_report {
         BuildTerminationReport::Cancelled => Ok(IncrementalRunResult::Cancelled),
         BuildTerminationReport::Completed => {
             match TargetEnvState::current(target_input, target_output).await {
                 Ok(Some(env_state)) => {
+                    #[cfg(zinoma_verif)]
+                    crate::verif::hooks::crash_point("state_computed", target);
                     if let Err(e) = storage::save_env_state(target, env_state).await {
                         log::warn!(
                             "{} - Failed to save state of inputs and outputs: {}",
